@@ -34,7 +34,7 @@ from . import c01_rw as rw
 
 NAME0, NUM0 = "x", "0"
 _SIMPLE_OPS = {"(", ")", "[", "]", "{", "}", ",", ":", ".", ";", "=", "+"}
-_RANK = {ch: i for i, ch in enumerate("xabcdefghijklmnopqrstuvwyz'\uff58")}
+_RANK = {ch: i for i, ch in enumerate("xabcdefghijklmnopqrstuvwyz'\uff58 ")}
 
 
 def size_key(text):
@@ -192,6 +192,7 @@ def tree_candidates(text, mode, hoist_to_stmt=True):
                             yield pre + ind + text[cs:ce] + eol + post
                         if not (isinstance(n, ast.Assign) and len(n.targets) == 1 and isinstance(n.targets[0], ast.Name) and n.targets[0].id == NAME0):
                             yield pre + ind + NAME0 + "=" + text[cs:ce] + eol + post
+                            yield pre + ind + NAME0 + "= " + text[cs:ce] + eol + post
                 # simplest compound statement around the same block: `if x:`
                 for sub in blocks:
                     blk = _dedent_block(src, sub, ind + " ")
@@ -229,6 +230,7 @@ def tree_candidates(text, mode, hoist_to_stmt=True):
                 hrow = rows[stmt.lineno - 1]
                 eol = hrow[len(hrow.rstrip("\r\n")) :] or "\n"
                 yield "".join(rows[:r0]) + ind + NAME0 + "=" + cur + eol + "".join(rows[r1:])
+                yield "".join(rows[:r0]) + ind + NAME0 + "= " + cur + eol + "".join(rows[r1:])
         elif isinstance(n, ast.pattern):
             s, e = src.span(n)
             for simple in ("_", NUM0):
@@ -238,7 +240,12 @@ def tree_candidates(text, mode, hoist_to_stmt=True):
                 if isinstance(ch, ast.pattern):
                     cs, ce = src.span(ch)
                     yield text[:s] + text[cs:ce] + text[e:]
-    # operators: the simplest of their kind
+    yield from op_candidates(text, src)
+
+
+def op_candidates(text, src=None):
+    """Operators replaced by the simplest of their kind."""
+    src = src or rw.Src(text)
     for t in src.toks:
         if (t.type == T.OP and t.string not in _SIMPLE_OPS and t.string not in ("->", ":=", "...", "!", "@")) or (t.type == T.NAME and t.string in _KW_OPS):
             s, e = src.off(t.start), src.off(t.end)
@@ -426,10 +433,14 @@ class Minimiser:
             if res is not None:
                 break
             path.append(k)
-            if not csig.startswith(_REJECT_KINDS):
-                res = (cur, csig)
-                break
-            nxt, nsig = self._first(cur, mode, tree_candidates(cur, mode, False), lambda r: r is not None and r.startswith(_REJECT_KINDS))
+            if csig.startswith(_REJECT_KINDS):
+                nxt, nsig = self._first(cur, mode, tree_candidates(cur, mode, False), lambda r: r is not None and r.startswith(_REJECT_KINDS))
+            elif csig.startswith("ast-diff:"):
+                # a wrong tree may be reported one field higher or lower when only an operator changes
+                # (`x%={x},` -> AugAssign.value, `x={x},` -> Assign.value): operators only
+                nxt, nsig = self._first(cur, mode, op_candidates(cur), lambda r: r is not None and r.startswith("ast-diff:"))
+            else:
+                nxt = None
             if nxt is None:
                 res = (cur, csig)
                 break
